@@ -35,6 +35,9 @@ pub struct Session {
     pub drops: BTreeSet<usize>,
     /// perform a user write (a TINY ping) right after every drop
     pub write_after_drop: bool,
+    /// `Some(plan)`: the transport buffers what it accepts (like the WebSocket adaptor) and only a completed flush
+    /// puts it on the wire; `true` entries make a flush poll return Pending
+    pub flush_plan: Option<Vec<bool>>,
     pub label: String,
 }
 
@@ -47,6 +50,8 @@ pub struct Outcome {
     pub drops_done: usize,
     /// where the future was suspended at each drop
     pub suspended_on: Vec<&'static str>,
+    /// bytes accepted by a buffering transport but never flushed by the end of the session
+    pub staged_left: usize,
     pub conservation_break: Option<String>,
     pub runaway: bool,
 }
@@ -56,12 +61,16 @@ pub fn run_session(s: &Session) -> Outcome {
     h.with(|x| {
         x.default_read = s.default_read;
         x.default_write = s.default_write;
+        if let Some(fp) = &s.flush_plan {
+            x.buffered = true;
+            x.flush_plan = fp.iter().copied().collect();
+        }
     });
     let mut f = tokio_impl::Framed::new(Box::new(AsyncTransport(h.clone())), Codec::new(mode_of(s.compressed)));
     let (_, sizes) = expected_results(&s.stream, s.compressed);
     let w = noop_waker();
     let mut cx = Context::from_waker(&w);
-    let mut out = Outcome { results: vec![], written: vec![], user_frames: 0, polls: 0, drops_done: 0, suspended_on: vec![], conservation_break: None, runaway: false };
+    let mut out = Outcome { results: vec![], written: vec![], user_frames: 0, polls: 0, drops_done: 0, suspended_on: vec![], staged_left: 0, conservation_break: None, runaway: false };
     let max_polls = 200 + 20 * (s.stream.len() + s.read_plan.len() + s.write_plan.len() + s.drops.len());
     let mut consumed = 0usize;
     let mut returned_frames = 0usize;
@@ -93,8 +102,9 @@ pub fn run_session(s: &Session) -> Outcome {
                     },
                     Poll::Pending => {
                         if s.drops.contains(&out.polls) {
-                            let last = h.with(|x| x.events.iter().rev().find(|e| matches!(e, Ev::TReadPending | Ev::TWritePending | Ev::TWrite { .. } | Ev::TRead { .. })).cloned());
+                            let last = h.with(|x| x.events.iter().rev().find(|e| matches!(e, Ev::TReadPending | Ev::TWritePending | Ev::TFlushPending | Ev::TWrite { .. } | Ev::TRead { .. })).cloned());
                             out.suspended_on.push(match last {
+                                Some(Ev::TFlushPending) => "flush",
                                 Some(Ev::TWritePending) | Some(Ev::TWrite { .. }) => "write-half",
                                 _ => "read-half",
                             });
@@ -134,6 +144,7 @@ pub fn run_session(s: &Session) -> Outcome {
         }
     }
     out.written = h.with(|x| x.written.clone());
+    out.staged_left = h.with(|x| x.staged.len());
     out
 }
 
@@ -142,7 +153,7 @@ fn judge(s: &Session, o: &Outcome, p: &mut Part) {
     let (frames, _) = ref_frames(&s.stream, s.compressed);
     let keepalives = frames.iter().filter(|f| f.len() == 4 && f[1] == 3 && f[2] == 0 && f[3] == 0).count();
     let susp = o.suspended_on.iter().map(|x| x.to_string()).collect::<Vec<_>>();
-    let where_ = if susp.iter().any(|x| x == "write-half") { "drop-while-suspended-on-write-half" } else if susp.is_empty() { "no-drop" } else { "drop-while-suspended-on-read-half" };
+    let where_ = if susp.iter().any(|x| x == "flush") { "drop-while-suspended-on-flush" } else if susp.iter().any(|x| x == "write-half") { "drop-while-suspended-on-write-half" } else if susp.is_empty() { "no-drop" } else { "drop-while-suspended-on-read-half" };
     let replay = || {
         json!({"mode": mode_name(s.compressed), "label": s.label, "stream": hex(&s.stream[..s.stream.len().min(2048)]), "read_plan": format!("{:?}", &s.read_plan[..s.read_plan.len().min(64)]), "default_read": s.default_read,
                "write_plan": format!("{:?}", &s.write_plan[..s.write_plan.len().min(64)]), "default_write": s.default_write, "drops": s.drops.iter().collect::<Vec<_>>(), "write_after_drop": s.write_after_drop,
@@ -199,6 +210,13 @@ fn judge(s: &Session, o: &Outcome, p: &mut Part) {
             replay(),
         );
     }
+    if o.staged_left > 0 {
+        p.violation(
+            format!("C19/{where_}/reply-never-flushed"),
+            format!("{} [{}]: the session is over and {} byte(s) the buffering transport accepted were never flushed onto the wire (drops {:?})", mode_name(s.compressed), s.label, o.staged_left, o.suspended_on),
+            replay(),
+        );
+    }
     if let Some(b) = &o.conservation_break {
         p.violation(format!("C19/{where_}/byte-conservation"), format!("[{}] {b}", s.label), replay());
     }
@@ -245,18 +263,19 @@ pub fn run(ctx: &mut Ctx) -> (&'static str, String, bool) {
         }
     }
     // readiness scripts on both halves
-    let scripts: Vec<(usize, usize, usize, usize)> = {
-        // (pendings before each read, bytes per read, pendings before each write, bytes per write)
-        let mut v = vec![(0, 0, 0, 0), (1, 0, 1, 0), (1, 3, 1, 1), (2, 1, 2, 3), (0, 5, 1, 2), (1, 4, 0, 4)];
+    let scripts: Vec<(usize, usize, usize, usize, usize)> = {
+        // (pendings before each read, bytes per read, pendings before each write, bytes per write,
+        //  flush: 0 = unbuffered transport, k = buffering transport whose flush is Pending k-1 times before it completes)
+        let mut v = vec![(0, 0, 0, 0, 0), (1, 0, 1, 0, 0), (1, 3, 1, 1, 0), (2, 1, 2, 3, 0), (0, 5, 1, 2, 0), (1, 4, 0, 4, 0), (0, 0, 0, 0, 2), (1, 0, 1, 0, 3), (1, 3, 1, 1, 2), (0, 5, 0, 0, 1)];
         if thorough {
-            v.extend([(3, 2, 3, 1), (0, 1, 0, 1), (2, 7, 1, 3)]);
+            v.extend([(3, 2, 3, 1, 0), (0, 1, 0, 1, 0), (2, 7, 1, 3, 0), (2, 1, 2, 3, 2), (1, 4, 0, 4, 4), (0, 1, 1, 2, 3)]);
         }
         v
     };
-    let jobs: Vec<(usize, &(bool, Vec<u8>, String), &(usize, usize, usize, usize))> = shorts.iter().flat_map(|s| scripts.iter().map(move |sc| (s, sc))).enumerate().map(|(i, (s, sc))| (i, s, sc)).collect();
+    let jobs: Vec<(usize, &(bool, Vec<u8>, String), &(usize, usize, usize, usize, usize))> = shorts.iter().flat_map(|s| scripts.iter().map(move |sc| (s, sc))).enumerate().map(|(i, (s, sc))| (i, s, sc)).collect();
     let parts: Vec<Part> = jobs
         .par_iter()
-        .map(|(ji, (compressed, stream, label), (rp, rk, wp, wk))| {
+        .map(|(ji, (compressed, stream, label), (rp, rk, wp, wk, fl))| {
             let rt = runtime();
             let _g = rt.enter();
             let mut p = Part::new();
@@ -281,7 +300,7 @@ pub fn run(ctx: &mut Ctx) -> (&'static str, String, bool) {
                 (rplan, wplan)
             };
             let (rplan, wplan) = mk_plans();
-            let base = Session { compressed: *compressed, stream: stream.clone(), read_plan: rplan, default_read: 0, write_plan: wplan, default_write: 0, drops: BTreeSet::new(), write_after_drop: false, label: format!("{label}-r{rp}x{rk}-w{wp}x{wk}") };
+            let base = Session { compressed: *compressed, stream: stream.clone(), read_plan: rplan, default_read: 0, write_plan: wplan, default_write: 0, drops: BTreeSet::new(), write_after_drop: false, flush_plan: if *fl == 0 { None } else { Some((0..200).map(|i| i % fl != fl - 1).collect()) }, label: format!("{label}-r{rp}x{rk}-w{wp}x{wk}-f{fl}") };
             // uninterrupted reference run
             let o0 = run_session(&base);
             p.evaluations += 1;
@@ -385,7 +404,7 @@ pub fn run(ctx: &mut Ctx) -> (&'static str, String, bool) {
             let ndrops = r.usize_below(30);
             let horizon = 50 + stream.len() / 4;
             let drops: BTreeSet<usize> = (0..ndrops).map(|_| 1 + r.usize_below(horizon)).collect();
-            let s = Session { compressed, stream, read_plan: rplan, default_read: 1 + r.usize_below(900), write_plan: wplan, default_write: 1 + r.usize_below(4), drops, write_after_drop: r.chance(1, 3), label: format!("long-{i}") };
+            let s = Session { compressed, stream, read_plan: rplan, default_read: 1 + r.usize_below(900), write_plan: wplan, default_write: 1 + r.usize_below(4), drops, write_after_drop: r.chance(1, 3), flush_plan: if i % 3 == 2 { Some((0..r.usize_below(60)).map(|_| r.chance(1, 2)).collect()) } else { None }, label: format!("long-{i}") };
             let o = run_session(&s);
             p.evaluations += 1;
             p.distinct(&s.stream);
@@ -399,13 +418,46 @@ pub fn run(ctx: &mut Ctx) -> (&'static str, String, bool) {
     for p in parts {
         ctx.merge(p);
     }
+    // ---- real adaptors: read raced against a ticker over loopback TCP / UDP / WebSocket -----------------
+    if !miri {
+        use super::c19_real::{real_session, Tr};
+        let n = ctx.tier.pick(36u64, 600u64);
+        let parts: Vec<(Part, Vec<String>)> = (0..n)
+            .into_par_iter()
+            .map(|i| {
+                let mut p = Part::new();
+                let mut r = base_rng.fork(900_000 + i);
+                let tr = [Tr::Tcp, Tr::Udp, Tr::Ws][(i % 3) as usize];
+                let compressed = (i / 3) % 2 == 0;
+                let strobe = (i / 6) % 4;
+                let mut errs = vec![];
+                if let Err(e) = real_session(c, &mut r, tr, compressed, strobe, &mut p) {
+                    errs.push(e);
+                }
+                (p, errs)
+            })
+            .collect();
+        let mut errs = vec![];
+        for (p, e) in parts {
+            ctx.merge(p);
+            errs.extend(e);
+        }
+        if !errs.is_empty() {
+            ctx.inconclusive(format!("{} real-adaptor session(s) could not be judged (socket setup or watchdog): {}", errs.len(), errs[0]));
+        }
+        for t in ["tcp", "udp", "ws"] {
+            if ctx.part.counters.get(&format!("real_{t}_drops")).copied().unwrap_or(0) == 0 {
+                ctx.inconclusive(format!("no read was ever dropped in the real {t} sessions"));
+            }
+        }
+    }
     if !miri && ctx.part.counters.get("drops_on_write-half").copied().unwrap_or(0) == 0 || ctx.part.counters.get("drops_on_read-half").copied().unwrap_or(0) == 0 {
         ctx.inconclusive("the drop plans never hit both suspension points (read half and write half)");
     }
     ctx.assume("cooperative single-task schedules: the read future is polled by hand under a paused-clock current-thread runtime and dropped right after a poll that returned Pending; suspension points are the scripted transport's Pending returns");
     (
         "fault_enumeration",
-        "short sessions (keep-alive at every position of 1..4(6)-frame sessions) x 6(9) readiness scripts on both halves x every single drop point (with and without a user write right after the drop) x every pair of drop points x select!-style strobes; long sessions up to 200 frames with random Pending/partial scripts and random multi-drop plans; judged against the uninterrupted session (returned packets, outgoing whole frames, byte conservation via hook); distinct = distinct (session, drop plan)".into(),
+        "short sessions (keep-alive at every position of 1..4(6)-frame sessions) x 6(9) readiness scripts on both halves x every single drop point (with and without a user write right after the drop) x every pair of drop points x select!-style strobes; long sessions up to 200 frames with random Pending/partial scripts and random multi-drop plans; judged against the uninterrupted session (returned packets, outgoing whole frames, byte conservation via hook); real loopback TCP / tokio UDP adaptor / WebSocket adaptor sessions with the read raced against a ticker in a select! loop (4 ticker styles), judged on returned packets and on the replies the peer received; distinct = distinct (session, drop plan)".into(),
         true,
     )
 }
